@@ -310,7 +310,7 @@ Proof.
 Qed.
 
 (* CodeBuilder.dataclass_fields (K5) run on the hierarchy, then metadatas.get / __get_field_alias (K4),
-   gives KeyModel.alias_of of the class the hierarchy denotes (with the Config get_config returns) -- for both views of the class body *)
+   gives KeyModel.alias_of of the class the hierarchy denotes -- for both views of the class body *)
 Theorem alias_from_sources :
   forall (mdf: fld -> kv), (forall f, k_dict_get (mdf f) (KStr "alias") = Ok (enc_ostr (f_meta f))) ->
   forall (ls: list level) (l: level) (rest: list pyclass) (c0: pyclass) nsd ownf discr,
@@ -327,8 +327,8 @@ Theorem alias_from_sources :
          /\ get_field_alias (KStr (f_name f)) md
               (KBool (match f_ann f with Some _ => true | None => false end))
               (match f_ann f with Some a => KTuple (map enc_ann a) | None => KNone end)
-              (enc_aliases (c_aliases (builder_class_of (ls ++ [l]) discr)))
-            = Ok (enc_ostr (alias_of (builder_class_of (ls ++ [l]) discr) f)).
+              (enc_aliases (c_aliases (class_of (ls ++ [l]) discr)))
+            = Ok (enc_ostr (alias_of (class_of (ls ++ [l]) discr) f)).
 Proof.
   intros mdf Hmdf ls l rest c0 nsd ownf discr Hex Hns Hown Hview.
   exists (ref_fields rest (map dname (l_decls l)) nsd ownf).
